@@ -123,10 +123,10 @@ pub enum CustomAction {
 
 mod tweak_serde {
     use serde::{Deserialize, Serialize};
-    use serde_json::value::RawValue as RawJsonValue;
+    use serde_json::value::{RawValue as RawJsonValue, Value as JsonValue};
 
     /// Values for the `set_tweak` action.
-    #[derive(Clone, Deserialize, Serialize)]
+    #[derive(Clone, Serialize)]
     #[serde(untagged)]
     pub(crate) enum Tweak {
         Sound(SoundTweak),
@@ -136,6 +136,35 @@ mod tweak_serde {
             name: String,
             value: Box<RawJsonValue>,
         },
+    }
+
+    impl<'de> Deserialize<'de> for Tweak {
+        fn deserialize<D>(deserializer: D) -> Result<Self, D::Error>
+        where
+            D: serde::Deserializer<'de>,
+        {
+            /// The tweak is identified by its name, not by the type of its value.
+            #[derive(Deserialize)]
+            struct TweakDeHelper {
+                set_tweak: String,
+                value: Option<JsonValue>,
+            }
+
+            let TweakDeHelper { set_tweak: name, value } = TweakDeHelper::deserialize(deserializer)?;
+
+            Ok(match (name.as_str(), value) {
+                ("sound", Some(JsonValue::String(value))) => Self::Sound(SoundTweak { value }),
+                ("highlight", None) => Self::Highlight(HighlightTweak { value: true }),
+                ("highlight", Some(JsonValue::Bool(value))) => {
+                    Self::Highlight(HighlightTweak { value })
+                }
+                (_, value) => Self::Custom {
+                    name,
+                    value: serde_json::value::to_raw_value(&value.unwrap_or(JsonValue::Null))
+                        .map_err(serde::de::Error::custom)?,
+                },
+            })
+        }
     }
 
     #[derive(Clone, PartialEq, Deserialize, Serialize)]
